@@ -328,9 +328,7 @@ def demoReq : Lib.Request :=
     header := [(xForwardedFor, [[49, 46, 50, 46, 51, 46, 52]])],                    -- X-Forwarded-For: 1.2.3.4
     remoteAddr := [91, 58, 58, 49, 93, 58, 56, 48],                                 -- "[::1]:80"
     cookieLines := [] }
-def demoCtx : context :=
-  { Injector := ⟨[], fun _ _ => (0, 0), []⟩, handlers := [], action := ⟨[], fun _ _ => (0, 0), []⟩, index := 0,
-    responseWriter := ⟨[], fun _ _ => (0, 0), []⟩, request := demoReq, params := [([105, 100], [45, 53])], urlPath := 0 }
+def demoCtx : context := { (default : context) with request := demoReq, params := [([105, 100], [45, 53])] }
 
 example : (QueryInt demoCtx [110] []).1 = 42 ∧ (QueryInt demoCtx [122] [9]).1 = 9 ∧ (QueryInt demoCtx [122] []).1 = 0
     ∧ (QueryStrings demoCtx [110] []).1 = [[52, 50], [55]] ∧ (QueryTrim demoCtx [120] []).1 = [97]
